@@ -162,6 +162,12 @@ def scenarios(tier):
         # while the inbound transaction is still closing)
         for n in ((4, 30) if tier == 'quick' else (1, 4, 9, 30)):
             out.append({'cfg': {'seed': sd, 'third': True}, 'ops': [dict(c17.rd(0x1000, n), then_query=1)]})
+        # every party on a thread of its own, blocking driver (see C17)
+        for cost in (0.3e-3, 3e-3):
+            for vis in (0.0, 1.0):
+                cfg = {'seed': sd, 'base_lat': 0.2e-3, 'send_cost': cost, 'send_visible': vis, 'rx_threads': True}
+                out.append({'cfg': cfg, 'ops': [c17.rd(0x1000, 9)]})
+                out.append({'cfg': cfg, 'ops': [c17.wr(0x1000, 1)]})
         if tier != 'quick':
             for base in (0.2e-3, 5e-3):
                 out.append({'cfg': {'seed': sd, 'base_lat': base}, 'ops': [c17.rd(0x1000, 9)]})
